@@ -135,6 +135,46 @@ def check(chk, repo, tier):
                        line)
     chk.floor("NUMBER template alternatives", n_alt, 1)
 
+    # ---- the digits reach the constructor unmodified -------------------------------
+    fn = tmod.function("transpile_token")
+    arm = None
+    for n in ast.walk(fn):
+        if isinstance(n, ast.If) and isinstance(n.test, ast.Compare) and \
+                (dotted(n.test.comparators[0]) or "").endswith(
+                    "TokenType.NUMBER"):
+            arm = n
+    if arm is None:
+        raise AnalysisError("anchor vanished: NUMBER arm of transpile_token")
+    ALLOWED_METHODS = {"split", "join", "count", "startswith", "endswith",
+                       "isdecimal", "isdigit", "isnumeric"}
+    n_ops = 0
+    for n in ast.walk(ast.Module(body=arm.body, type_ignores=[])):
+        bad = None
+        if isinstance(n, ast.Call) and isinstance(n.func, ast.Attribute) \
+                and not isinstance(n.func.value, ast.Constant):
+            base = dotted(n.func.value) or ""
+            if base.split(".")[0] in ("sympy", "re", "helpers", "vyxal"):
+                continue
+            n_ops += 1
+            if n.func.attr not in ALLOWED_METHODS:
+                bad = f".{n.func.attr}(...)"
+        elif isinstance(n, ast.Call) and dotted(n.func) in (
+                "int", "float", "round", "str.strip", "eval"):
+            bad = f"{dotted(n.func)}(...)"
+        elif isinstance(n, ast.Subscript) and isinstance(
+                n.slice, ast.Slice) and isinstance(n.ctx, ast.Load):
+            bad = f"slice {ast.unparse(n)[:30]}"
+        if bad:
+            chk.ob("C05.text-unmodified",
+                   f"transpile_token/NUMBER:{bad}", False,
+                   f"`{ast.unparse(n)[:50]}` rewrites the literal's text "
+                   "before it is converted: digits can be dropped or changed "
+                   "(only split/join on the imaginary separator and constant "
+                   "concatenation are value-preserving)", TF, n.lineno,
+                   witness="10.0 pushes 1 after an rstrip('0.')")
+    chk.ob("C05.text-unmodified", "transpile_token/NUMBER", True,
+           sample={"string operations on the literal text": n_ops})
+
     # ---- lexer: the two splitting conditions ---------------------------------------
     LF = repo.mod("lexer").rel
     nb = [b for b in lm.branches if b.chars is not ANY and "0" in b.chars
@@ -168,10 +208,19 @@ def check(chk, repo, tier):
             t = ast.unparse(n.test).replace("'", '"')
             if '.count(".") < 2' in t:
                 one_point = True
+            for m in ast.walk(n):
+                if isinstance(m, ast.If) and any(
+                        isinstance(b, ast.Break) for b in m.body):
+                    tt = ast.unparse(m.test).replace("'", '"').replace(" ", "")
+                    if '.count(".")>1' in tt or '.count(".")>=2' in tt:
+                        one_point = True
     chk.ob("C05.second-point-splits", "lexer NUMBER scan guard", one_point,
            "the scan loop must stop before a second '.' in one part "
            "(`.count(\".\") < 2`)", LF, br.line, witness="1.2.3 lexes as "
            "1.2, .3", sample='x.count(".") < 2')
+
+    from .c03 import popped_char_rule  # noqa: PLC0415
+    popped_char_rule(chk, lm, LF, "C05.split-keeps-the-character")
 
     chk.explanation = (
         "Clause-level: on the NUMBER lowering path (template extracted in the "
